@@ -95,18 +95,18 @@ func runC17(c *core.Ctx, o Options) {
 	// no map iteration / sorting on the serialization path
 	fixPkg := c.SSAPkg("fix")
 	for _, fn := range pkgFuncs(fixPkg) {
-		if !strings.Contains(fn.Name(), "ToBytes") && fn.Name() != "Prepare" && fn.Name() != "BytesWithoutChecksum" && fn.Name() != "CalcBodyLength" && fn.Name() != "joinBody" && fn.Name() != "makeTagValue" {
+		if !strings.Contains(an.NameOf(fn), "ToBytes") && an.NameOf(fn) != "Prepare" && an.NameOf(fn) != "BytesWithoutChecksum" && an.NameOf(fn) != "CalcBodyLength" && an.NameOf(fn) != "joinBody" && an.NameOf(fn) != "makeTagValue" {
 			continue
 		}
 		an.AllInstrs(fn, func(in ssa.Instruction) {
 			if r, ok := in.(*ssa.Range); ok {
 				if _, isMap := r.X.Type().Underlying().(*types.Map); isMap {
-					c.Ob("S", fn.Name(), "no map iteration in the serializer", r.Pos()).Fail("iteration over a map has no defined order: the field order on the wire would vary")
+					c.Ob("S", an.NameOf(fn), "no map iteration in the serializer", r.Pos()).Fail("iteration over a map has no defined order: the field order on the wire would vary")
 				}
 			}
 			if call, ok := in.(*ssa.Call); ok {
 				if cal := an.StaticCallee(&call.Call); cal != nil && cal.Pkg != nil && (cal.Pkg.Pkg.Path() == "sort" || cal.Pkg.Pkg.Path() == "slices") {
-					c.Ob("S", fn.Name(), "no sorting in the serializer", call.Pos()).Fail("fields are re-ordered (%s.%s); the wire order must be the order of the message definition", cal.Pkg.Pkg.Name(), cal.Name())
+					c.Ob("S", an.NameOf(fn), "no sorting in the serializer", call.Pos()).Fail("fields are re-ordered (%s.%s); the wire order must be the order of the message definition", cal.Pkg.Pkg.Name(), an.NameOf(cal))
 				}
 			}
 		})
